@@ -2,7 +2,8 @@
    name.  This is what is extracted; the correspondence harness calls these
    and nothing else. *)
 From AK Require Import Base.Prelude Base.Sx Bytes.Text Bytes.FabHeader Bytes.BinFile
-  Reader.Select Reader.BoxRead Reader.Level Plotfile.TextHeader Taste.Taste Writers.Colander.
+  Reader.Select Reader.BoxRead Reader.Level Plotfile.TextHeader Taste.Taste Writers.Colander
+  Array.Paint Mandoline.Plate.
 
 Definition as_Zs := as_list as_Z.
 Definition as_optZ := as_opt as_Z.
@@ -283,6 +284,23 @@ Definition e_colander (s : sx) : sx :=
   | _ => bad_request
   end.
 
+(* ---- C08: mandoline on 2D plotfiles ----
+   request: (levels limit fidxs nx ny) -> per field the (ny, nx) array in C
+   order as one byte string, then the grid levels; () where a pixel was never
+   written *)
+Definition e_plate (s : sx) : sx :=
+  match s with
+  | SL [lvs; SZ limit; fidxs; SZ nx; SZ ny] =>
+      req (do lvs <- as_list dec_level lvs; do fidxs <- as_Zs fidxs; Some (lvs, fidxs))
+          (fun '(lvs, fidxs) =>
+             of_result (fun r =>
+                          SL [of_list (fun c => Sx.of_opt (fun l => SB (concat l))
+                                                 (render c (Z.to_nat nx) (Z.to_nat ny))) (fst r);
+                              Sx.of_opt of_Zs (render (snd r) (Z.to_nat nx) (Z.to_nat ny))])
+                       (plate lvs (Z.to_nat limit) fidxs))
+  | _ => bad_request
+  end.
+
 Definition entries : list (string * (sx -> sx)) :=
   [ ("getitem", e_getitem);
     ("iter_all", e_iter_all);
@@ -299,7 +317,8 @@ Definition entries : list (string * (sx -> sx)) :=
     ("parse_cellh", e_parse_cellh);
     ("taste", e_taste);
     ("taste_all", e_taste_all);
-    ("colander", e_colander)
+    ("colander", e_colander);
+    ("plate", e_plate)
   ]%string.
 
 Fixpoint find_entry (name : string) (l : list (string * (sx -> sx))) : option (sx -> sx) :=
